@@ -1277,8 +1277,16 @@ namespace
     value append_array_array(runtime& runtime, value::cref left, value::cref right)
     {
         auto arr = left.data<d_array>();
-        auto r = right.data<d_array>();
-        arr->insert(arr->end(), r->begin(), r->end());
+        // Copy the appended values first, `right` may be (an alias of) `left`
+        auto r = right.data<d_array>()->value();
+        auto old_size = arr->size();
+        arr->insert(arr->end(), r.begin(), r.end());
+        if (!arr->recursion_test())
+        {
+            arr->erase(arr->begin() + old_size, arr->end());
+            runtime.__logmsg(err::ArrayRecursion(runtime.context_active().current_frame().diag_info_from_position()));
+            return {};
+        }
         return {};
     }
     value arrayintersect_array_array(runtime& runtime, value::cref left, value::cref right)
